@@ -5,6 +5,7 @@ the Go AST, equals the model's on every record whose file offsets fit an int64.
 import Hts.Model.Fai
 import Hts.Gen.Fai
 import Hts.Lemmas.FaiSane
+import Hts.Lemmas.FaiSample
 namespace Hts.Tie.C19
 open Hts.Model.Fai
 
@@ -208,11 +209,7 @@ theorem tie_isValid (name : Bytes) (l s b y : Int)
 /-! ### the hypotheses of the tie theorems are satisfiable: record `s1 8 11 4 6` of the sample file
 (`Hts.Lemmas.Fai.sampleFile`: CRLF, two lines of 4 bases) -/
 
-def exRec : Record := ⟨[115, 49], 8, 11, 4, 6⟩
-
-theorem exRec_small (p : Nat) (hp : p ≤ 8) : exRec.position p < 2 ^ 63 := by
-  simp only [Record.position, exRec, Nat.reduceEqDiff, if_false]
-  omega
+open Hts.Lemmas.Fai (exRec exRec_small)
 
 example := tie_position exRec 5 (exRec_small 5 (by decide))
 example := tie_endOfLineOffset exRec 0#64 5 (by decide) (by decide)
